@@ -488,8 +488,11 @@ class CookieJar(AbstractCookieJar):
                 ):
                     continue
 
-                # Skip edge case when the cookie has a trailing slash but request doesn't.
-                if len(cookie["path"]) > path_len:
+                # The cookies were looked up by their path without trailing
+                # slashes: "/foo/" does not match "/foo", nor "/foo//" "/foo/bar".
+                if len(cookie["path"]) > path_len or not request_url.path.startswith(
+                    cookie["path"]
+                ):
                     continue
 
                 if is_not_secure and cookie["secure"]:
